@@ -9,6 +9,7 @@ import Driver.C07
 import Driver.C09
 import Driver.C14
 import Driver.C19
+import Driver.C06
 
 open Driver Relic.Model
 
@@ -19,6 +20,7 @@ structure Conf where
   extra : List (String × String) := []
   fp : Option C02.Env := none
   ep : Option C03.Env := none
+  cp : C06.State := {}
 
 def parseCfg (toks : List String) : Conf :=
   toks.foldl (fun c t =>
@@ -38,7 +40,7 @@ def dispatch (c : Conf) (op : String) (args : List String) (got : String) : Opti
     | some e => C02.handle e op args got
     | none => none) <|> (match c.ep with
     | some e => C03.handle e c.w op args got
-    | none => none) <|> (C07.handle e01.cfg op args) <|> (C09.handle c.w c.size c.digs op args got) <|> (C14.handle op args) <|> (C15.handle c.w c.size op args got) <|> (C19.handle latch op args)
+    | none => none) <|> (C07.handle e01.cfg op args) <|> (C09.handle c.w c.size c.digs op args got) <|> (C14.handle op args) <|> (C15.handle c.w c.size op args got) <|> (C19.handle latch op args) <|> (C06.handle c.w c.cp c.ep op args got)
 
 def processLine (c : Conf) (line : String) : String :=
   match line.splitOn " => " with
@@ -97,6 +99,15 @@ partial def loop (h : IO.FS.Stream) (out : IO.FS.Stream) (c : Conf) : IO Unit :=
       | none =>
         out.putStrLn (if got == "err" then "ok fp_param-rejected" else "FAIL S model=[] spec=[parsable fp_param] got=[" ++ got ++ "]")
         loop h out { c with fp := none }
+    | _ => out.putStrLn "skip"; loop h out c
+  else if C06.isParam ((line.splitOn " ").headD "") then
+    -- key-generation context lines of C06: the key material the library reports is checked and kept
+    match line.splitOn " => " with
+    | [lhs, got] =>
+      let toks := (lhs.splitOn " ").filter (· ≠ "")
+      let (msg, st) := C06.param c.cp (toks.headD "") (toks.drop 1) got
+      out.putStrLn msg
+      loop h out { c with cp := st }
     | _ => out.putStrLn "skip"; loop h out c
   else
     out.putStrLn (processLine c line)
